@@ -1,15 +1,16 @@
 CONSTANTS
-  MaxCmds = 100000
-  MaxPending = 8
-  MaxNum = 100000
-  MaxItems = 1000
-  MaxUid = 100000
-  MaxCode = 100000
+  MaxCmds = 3
+  MaxPending = 3
+  MaxNum = 2
+  MaxItems = 1
+  MaxUid = 1
+  MaxCode = 1
   NFlagSets = 2
   Kinds = {"NOOP", "LOGIN", "SELECT", "UNSELECT", "STATUS", "LIST", "SEARCH", "ESEARCH", "FETCH", "EXPUNGE", "LOGOUT"}
   Greetings = {"OK"}
-INIT TraceInit
-NEXT TraceNext
-INVARIANTS TypeOK
-POSTCONDITION TraceAccepted
+  SimDepth = 0
+  Count = FALSE
+INIT GenInit
+NEXT GenNext
+VIEW GenView
 CHECK_DEADLOCK FALSE
